@@ -1667,23 +1667,38 @@ impl<'a> HistoryIterator<'a> {
 	///
 	/// After this call, inner iterator is at previous user key (or invalid).
 	fn collect_user_key_backward(&mut self) -> Result<bool> {
+		// A user key that contributes nothing (hidden by a hard delete, only
+		// filtered tombstones, nothing visible or in the timestamp range) is
+		// passed over: the traversal continues with the key before it.
+		loop {
+			if let Some(found) = self.collect_one_user_key_backward()? {
+				return Ok(found);
+			}
+		}
+	}
+
+	/// One step of `collect_user_key_backward`: `Some(true)` with the buffer
+	/// filled, `Some(false)` at the end of the traversal, `None` when the
+	/// user key under the cursor contributed nothing (inner is then at the
+	/// previous user key, or invalid).
+	fn collect_one_user_key_backward(&mut self) -> Result<Option<bool>> {
 		self.backward_buffer.clear();
 
 		if !self.inner_valid() {
-			return Ok(false);
+			return Ok(Some(false));
 		}
 
 		let user_key = self.inner_key().user_key().to_vec();
 
 		if !self.user_key_within_lower_bound(&user_key) {
-			return Ok(false);
+			return Ok(Some(false));
 		}
 
 		if !self.user_key_within_upper_bound(&user_key) {
 			while self.inner_valid() && self.inner_key().user_key() == user_key.as_slice() {
 				self.inner_prev()?;
 			}
-			return self.collect_user_key_backward();
+			return Ok(None);
 		}
 
 		// Collect all visible versions
@@ -1734,7 +1749,7 @@ impl<'a> HistoryIterator<'a> {
 		}
 
 		if versions.is_empty() {
-			return Ok(false);
+			return Ok(None);
 		}
 
 		// versions are in seq_num ASC order (oldest first, newest last)
@@ -1743,7 +1758,7 @@ impl<'a> HistoryIterator<'a> {
 
 		// Rule 1: HARD_DELETE as latest → skip entire key
 		if latest.is_hard_delete {
-			return Ok(false);
+			return Ok(None);
 		}
 
 		// Rule 2: Find first barrier from newest (search from end to start)
@@ -1790,7 +1805,7 @@ impl<'a> HistoryIterator<'a> {
 		}
 
 		if self.backward_buffer.is_empty() {
-			return Ok(false);
+			return Ok(None);
 		}
 
 		// Truncate buffer to respect limit
@@ -1799,7 +1814,7 @@ impl<'a> HistoryIterator<'a> {
 			if remaining == 0 {
 				self.backward_buffer.clear();
 				self.limit_reached = true;
-				return Ok(false);
+				return Ok(Some(false));
 			}
 			if self.backward_buffer.len() > remaining {
 				self.backward_buffer.truncate(remaining);
@@ -1813,7 +1828,7 @@ impl<'a> HistoryIterator<'a> {
 		// Start yielding from index 0 (oldest in valid range)
 		self.backward_buffer_index = Some(0);
 
-		Ok(true)
+		Ok(Some(true))
 	}
 
 	fn advance_backward(&mut self) -> Result<bool> {
